@@ -1,41 +1,5 @@
 //! Development aid (not a check).
-use ckb_types::{packed, prelude::*};
-use crate::verif::props::c10;
-use crate::verif::scen::{kind_of, Env};
-
 pub(crate) fn run() -> i32 {
-    let env = Env::dummy();
-    let params = c10::Params::default();
-    let w = c10::worlds_with(&env, &params);
-    let (mut sim, _n) = c10::build_with(&env, &w, &params, c10::Scn::MatchedBlocks, None);
-    let text = std::fs::read_to_string("/verif/replays/C02/quick-0.json").unwrap();
-    let v: serde_json::Value = serde_json::from_str(&text).unwrap();
-    let hexs = v["replay"]["message_hex"].as_str().unwrap();
-    let bytes: Vec<u8> = (0..hexs.len() / 2).map(|i| u8::from_str_radix(&hexs[2 * i..2 * i + 2], 16).unwrap()).collect();
-    println!("queue: {:?}", sim.queue.iter().map(|m| m.note.clone()).collect::<Vec<_>>());
-    let home = sim.queue[0].data.clone();
-    let diff: Vec<usize> = (0..home.len().min(bytes.len())).filter(|i| home[*i] != bytes[*i]).collect();
-    println!("home len {} mutant len {} diff at {:?}", home.len(), bytes.len(), diff);
-    let msg = packed::SyncMessageReader::from_compatible_slice(&bytes);
-    println!("parse ok: {}", msg.is_ok());
-    println!("world block2 tx0 {:#x}", w.main.blocks[2].transactions()[0].hash());
-    if let Ok(m) = packed::SyncMessageReader::from_compatible_slice(&home) {
-        if let packed::SyncMessageUnionReader::SendBlock(r) = m.to_enum() {
-            let view = r.to_entity().block().into_view();
-            println!("honest tx hashes {:?} root calc {:#x}", view.tx_hashes().iter().map(|h| format!("{:#x}", h)).collect::<Vec<_>>(), view.calc_transactions_root());
-            println!("honest witness hashes {:?}", view.tx_witness_hashes().iter().map(|h| format!("{:#x}", h)).collect::<Vec<_>>());
-        }
-    }
-    if let Ok(m) = msg {
-        if let packed::SyncMessageUnionReader::SendBlock(r) = m.to_enum() {
-            let b = r.to_entity().block();
-            let view = b.clone().into_view();
-            println!("txroot header {:#x} calc {:#x}", view.transactions_root(), view.calc_transactions_root());
-            println!("mutant witness hashes {:?}", view.tx_witness_hashes().iter().map(|h| format!("{:#x}", h)).collect::<Vec<_>>());
-            println!("tx hashes {:?}", view.tx_hashes().iter().map(|h| format!("{:#x}", h)).collect::<Vec<_>>());
-        }
-    }
-    sim.cm().recv_sync(ckb_network::PeerIndex::new(1), bytes.into());
-    println!("bans {:?}", sim.bans());
+    crate::verif::props::c04::debug_case();
     0
 }
